@@ -1,5 +1,5 @@
 // WARNING: Only those functions that are filesystem agnostic should be included here.
-use std::path::{self, Component, Path, PathBuf};
+use std::path::{Component, Path, PathBuf};
 
 use crate::{core::*, errors::*};
 
@@ -336,8 +336,13 @@ pub fn last<T: AsRef<Path>>(path: T) -> RvResult<String> {
 /// assert_eq!(sys::mash("/foo", "/bar"), PathBuf::from("/foo/bar"));
 /// ```
 pub fn mash<T: AsRef<Path>, U: AsRef<Path>>(dir: T, base: U) -> PathBuf {
-    let base = trim_prefix(base, path::MAIN_SEPARATOR.to_string());
-    let path = dir.as_ref().join(base);
+    let mut path = dir.as_ref().to_path_buf();
+    for component in base.as_ref().components() {
+        // Drop every leading separator so the result always stays under dir
+        if component != Component::RootDir {
+            path.push(component);
+        }
+    }
     path.components().collect::<PathBuf>()
 }
 
